@@ -6,9 +6,12 @@ PID = "C08"
 
 def check(tier, seed):
     q = tier == "quick"
-    return G.generic_check(PID, "exploration", tier, seed, coq=False,
-        rule=RULE + "; engine-internal monitor: on-demand generator drained under random generator histories (PV move from this / another position, killers, history and counter-move tables, reuse across positions with and without reset, half-drained predecessors) vs batch generation for modes all/non-quiet/quiet x evasion x UsePromNonQuiet; captures+quiet partition; evasion subset/no duplicates/complete for legal moves; HasLegalMove; oracle: batch pseudo-legal list and HasLegalMove vs the spec",
-        streams=[dict(name="modes_monitor", kind="monitor", shards=lambda t: 8,
+    return G.generic_check(PID, "proof", tier, seed, coq=True,
+        rule="obligations: theorems of coq/properties/C08.v over MovegenImpl.v (modes partition, on-demand drain = batch list each once with a set PV move first for every sort oracle and generator state, evasion list = evasion-target filter of the full list: sound and duplicate-free); correspondence: batch lists, HasLegalMove and on-demand drains with PV move / killers of the real generator vs MovegenImpl inside Coq (c01-cases); " + RULE + "; engine-internal monitor: on-demand generator drained under random generator histories (PV move from this / another position, killers, history and counter-move tables, reuse across positions with and without reset, half-drained predecessors) vs batch generation for modes all/non-quiet/quiet x evasion x UsePromNonQuiet; captures+quiet partition; evasion subset/no duplicates/complete for legal moves; HasLegalMove; oracle: batch pseudo-legal list and HasLegalMove vs the spec",
+        streams=[dict(name="movegen_model_vs_engine", kind="coqcases", shards=lambda t: 2 if t == "quick" else 16,
+                      args=lambda t, s, sh, path: ["c01-cases", 50 if t == "quick" else 300, s * 1000 + 850 + sh, path],
+                      ok_marker="M = ([], [], [])", coq_timeout=3000),
+                 dict(name="modes_monitor", kind="monitor", shards=lambda t: 8,
                       args=lambda t, s, sh, path: ["c08-monitor", 1500 if t == "quick" else 40000, s * 1000 + sh]),
                  pos_stream("pseudo_legal_vs_spec", ["pseudo-legal-move-list", "has-legal-move"], npos_quick=300, npos_thorough=3000)])
 
